@@ -20,7 +20,7 @@ try:
     meta['patch_applies'] = a.returncode == 0
     if a.returncode == 0:
         # regenerate the patch against HEAD so that it applies to /repo as it is now
-        patch = sh('git -C %s diff -- wcmatch' % wt).stdout
+        patch = sh('git -C %s diff HEAD -- wcmatch' % wt).stdout
         t = subprocess.run('cd %s && /venv/bin/python -m pytest -q -p no:cacheprovider -q 2>&1 | tail -4' % wt, shell=True, env=env, capture_output=True, text=True, timeout=900)
         meta['tests_tail'] = t.stdout.strip().split('\n')[-3:]
         failed = [l for l in t.stdout.split('\n') if l.startswith('FAILED')]
